@@ -518,6 +518,8 @@ func c01LaneA(c *Ctx, root *Rng, n int) []*c01Case {
 // ---------------------------------------------------------------------------------------------
 // lane B: annotations
 
+var c01AnnoKeywords = []string{"fun", "table", "type", "param", "field", "class", "return", "overload", "alias", "generic", "public", "protected", "private", "vararg", "const", "enum"}
+
 func c01AnnoFile(r *Rng) (string, string) {
 	var sb strings.Builder
 	label := "anno"
@@ -568,6 +570,17 @@ func c01AnnoFile(r *Rng) (string, string) {
 	nv := r.Range(1, 6)
 	for i := 0; i < nv; i++ {
 		t := r.Pick(types)
+		// keyword modifiers before the type (const / enum in any order and number, occasionally any other annotation keyword)
+		for k := []int{0, 0, 0, 1, 1, 2, 2, 3}[r.Intn(8)]; k > 0; k-- {
+			if r.Chance(7, 10) {
+				t = r.Pick([]string{"const", "enum"}) + " " + t
+			} else {
+				t = r.Pick(c01AnnoKeywords) + " " + t
+			}
+		}
+		if r.Chance(1, 5) {
+			t += ", " + r.Pick([]string{"const ", "enum ", "enum const ", "const enum ", ""}) + r.Pick(types)
+		}
 		sb.WriteString(fmt.Sprintf("---@type %s\nlocal v%d = %s\n", t, i, r.Pick([]string{"{}", "nil", "Cls0", "f()", "v0", "{ a = 1 }"})))
 		sb.WriteString(fmt.Sprintf("print(v%d.f0_0, v%d.x.y, v%d[1].f0_0, v%d[\"k\"].f1_0, v%d:method0())\n", i, i, i, i, i))
 		sb.WriteString(fmt.Sprintf("v%d.\n", i)) // the typing flow completion is made for
@@ -595,6 +608,18 @@ func c01AnnoFile(r *Rng) (string, string) {
 			sb.WriteString(fmt.Sprintf("EV%d = %s\n", k, r.Pick(vals)))
 		}
 		label += "+enum"
+	}
+	if r.Chance(1, 3) {
+		// token soup: annotation lines made of random words of the annotation vocabulary
+		vocab := append(append([]string{}, c01AnnoKeywords...), ",", ":", "...", "(", ")", "[", "]", "|", "<", ">", "@", "?", "Cls0", "AliasA", "number", "x", "\"lit\"", "start", "end")
+		for k := 0; k < r.Range(2, 8); k++ {
+			sb.WriteString("---@" + r.Pick(c01AnnoKeywords))
+			for j := r.Range(0, 7); j > 0; j-- {
+				sb.WriteString(" " + r.Pick(vocab))
+			}
+			sb.WriteString(fmt.Sprintf("\nlocal soup%d = {}\nprint(soup%d.f0_0, soup%d)\n", k, k, k))
+		}
+		label += "+token-soup"
 	}
 	if r.Chance(1, 4) {
 		// corrupted annotation lines
